@@ -97,7 +97,6 @@ PROPS = {
         "assumptions": ["the store is unchanged between the reads of one case"],
     },
     "C01": {
-        "claimed": False,
         "lean_props": ["ZarrsModel.Props.C01"],
         "harness": "c01",
         "rule": "random configuration: 12 data types (fixed and variable length; NaN/-0.0/non-empty-string fills), rank 0..3, regular (ragged edge) and rectangular grids, 4 key encodings, "
@@ -112,5 +111,17 @@ PROPS = {
                                      "Element/ndarray conversions are exercised (C06), not modelled"],
         "assumptions": ["regions and chunk indices in bounds (the quantifier of the property)"],
         "timeout": 3000,
+    },
+    "C04": {
+        "lean_props": ["ZarrsModel.Props.C04"],
+        "harness": "c04",
+        "rule": "C01's configurations and operations with fill-heavy data: half of the writes are entirely fill or differ from fill in one element chosen to be easily confused with it "
+                "(sign bit: -0.0 vs 0.0 / NaN sign; lowest bit: NaN payload; fill string repeated twice, extended, truncated, empty), fills biased to non-zero / NaN / -0.0 / non-empty strings, "
+                "store_empty_chunks on in a quarter of the cases; the key listing is taken after EVERY operation and compared with the model's key set, then every chunk and region is read back; "
+                "non-trivial = distinct key listing or read with at least one stored chunk",
+        "nontrivial": lambda l: (" op keys" in l and not l.endswith("keys ~")) or (" op retrieve" in l and " -> val " in l),
+        "exhaustive": False,
+        "trusted_base": COMMON_TB + ["FillValue::equals_all's 128-bit aligned fast paths are reached only through the correspondence (chunk sizes 1..64 elements at whatever alignment the allocator gives)"],
+        "assumptions": ["inner-chunk elision inside shards is observed through reads and through C05's shard parser, not through the key listing"],
     },
 }
